@@ -28,6 +28,17 @@ pub fn gen_case(r: &mut Rng, out: &mut String) {
         writeln!(out, "dump b0").unwrap();
         writeln!(out, "spec_decode {}", h).unwrap();
     }
+    if r.chance(1, 10) {
+        // not conformant, yet accepted by a decoder that merges runs: the accepted value must be a consistent one
+        let (b, _, what) = stream::overlapping_runs_stream(r);
+        let h = hex(&b);
+        writeln!(out, "note {}", what).unwrap();
+        writeln!(out, "new b0").unwrap();
+        writeln!(out, "deser chk b0 {}", h).unwrap();
+        writeln!(out, "dump b0").unwrap();
+        writeln!(out, "stats b0").unwrap();
+        writeln!(out, "spec_decode {}", h).unwrap();
+    }
     // mostly small streams so that many corruptions fit in the budget; some with bitset chunks
     let small = r.chance(1, 2);
     let g = stream::gen_stream(r, small);
